@@ -286,6 +286,10 @@ Section Apply.
   Variable pos0 : Z.                               (* position on entry = orig_offset *)
   Variable o : outcome.                            (* what seeker.run() does *)
   Variable destructive : bool.                     (* the keyword argument *)
+  (* Gen.XSeek.apply_body_test: the test choosing between fd.seek(orig_offset)
+     and fd.seek(new_offset), as a function of (new_offset is None,
+     destructive) *)
+  Variable body_test : bool -> bool -> bool.
 
   Definition ap_state : Type := (Z * Z)%type.      (* position, new_offset *)
   Definition ap_call (k : nat) (e : ev) (st : ap_state) : ires ap_state :=
@@ -308,7 +312,7 @@ Section Apply.
      destructive`; the second (the cache write) has no effect on the position *)
   Definition ap_guard (k : nat) (st : ap_state) : bool :=
     match k with
-    | O => negb destructive   (* new_offset is None or not destructive *)
+    | O => body_test false destructive   (* new_offset is not None here *)
     | _ => false
     end.
 
